@@ -5,7 +5,9 @@ import (
 	"fmt"
 	"runtime"
 	"strconv"
+	"strings"
 	"sync"
+	"time"
 )
 
 // Sched is a cooperative scheduler: registered threads are real goroutines
@@ -14,21 +16,32 @@ import (
 // that could have continued is a preemption (a counted deviation); picking
 // among threads when the running one is blocked or finished is free.
 type Sched struct {
-	mu       sync.Mutex
-	ctx      *Ctx
-	threads  []*Thread
-	cur      *Thread
-	byGoid   map[int64]*Thread
-	done     chan struct{}
-	Deadlock bool
-	Horizon  bool
-	points   int
+	mu        sync.Mutex
+	ctx       *Ctx
+	threads   []*Thread
+	cur       *Thread
+	byGoid    map[int64]*Thread
+	done      chan struct{}
+	Deadlock  bool
+	Horizon   bool
+	points    int
 	MaxPoints int
-	Panics   []string
-	Log      []string // schedule log: "t1:lock(healthMu)" ...
-	active   bool
-	aborting bool
+	Panics    []string
+	Log       []string // schedule log: "t1:lock(healthMu)" ...
+	active    bool
+	aborting  bool
+	// progress counts dispatches; the monitor uses it to notice that the running
+	// thread has stopped reaching hooked operations.
+	progress uint64
+	exited   chan *Thread
+	// ExtBlocks counts how often a thread was found blocked on something the
+	// scheduler does not hook (a raw channel, a third-party lock).
+	ExtBlocks int
 }
+
+// extWait is the resource an externally blocked thread "waits for": nothing
+// the scheduler can release, only the thread's own return to a hooked operation.
+type extWait struct{}
 
 type abortSentinel struct{}
 
@@ -61,6 +74,12 @@ type Thread struct {
 	blocked any // resource this thread waits for (nil = enabled)
 	done    bool
 	fn      func()
+	goid    int64
+	// ext: the goroutine was found blocked outside any hooked operation while it
+	// was the running thread; the scheduler went on without it. It rejoins (parks
+	// like any other thread) at its next hooked operation.
+	ext      bool
+	reported bool
 }
 
 var (
@@ -125,15 +144,15 @@ func (s *Sched) Run() {
 	s.mu.Lock()
 	s.active = true
 	s.mu.Unlock()
-	var wg sync.WaitGroup
+	s.exited = make(chan *Thread, 2*len(s.threads)+2)
 	for _, t := range s.threads {
 		t := t
-		wg.Add(1)
 		started := make(chan struct{})
 		go func() {
-			defer wg.Done()
+			defer func() { s.exited <- t }()
 			s.mu.Lock()
-			s.byGoid[goid()] = t
+			t.goid = goid()
+			s.byGoid[t.goid] = t
 			s.mu.Unlock()
 			close(started)
 			<-t.resume
@@ -154,23 +173,253 @@ func (s *Sched) Run() {
 			}()
 			s.mu.Lock()
 			t.done = true
+			rejoin := t.ext
+			t.ext = false
 			s.mu.Unlock()
+			if rejoin {
+				// finished while the scheduler had gone on without it: somebody else is running
+				return
+			}
 			s.dispatch(t, "exit", true)
 		}()
 		<-started
 	}
+	stop := make(chan struct{})
+	go s.monitor(stop)
 	// first dispatch: nobody is running
 	s.dispatch(nil, "start", true)
-	wg.Wait()
+	// every thread either exits or is abandoned (blocked outside the scheduler when the run was torn down)
+	seen := map[*Thread]bool{}
+	for len(seen) < len(s.threads) {
+		seen[<-s.exited] = true
+	}
+	close(stop)
 	s.mu.Lock()
 	s.active = false
 	s.mu.Unlock()
 }
 
+// ---- threads blocked outside the scheduler ----
+
+type gstate struct {
+	status string
+	frames string
+}
+
+// goroutineStates parses runtime.Stack(all): goroutine id -> wait status.
+func goroutineStates() map[int64]gstate {
+	buf := make([]byte, 1<<20)
+	for {
+		n := runtime.Stack(buf, true)
+		if n < len(buf) {
+			buf = buf[:n]
+			break
+		}
+		buf = make([]byte, 2*len(buf))
+	}
+	out := map[int64]gstate{}
+	for _, blk := range strings.Split(string(buf), "\n\n") {
+		if !strings.HasPrefix(blk, "goroutine ") {
+			continue
+		}
+		head := blk
+		rest := ""
+		if i := strings.IndexByte(blk, '\n'); i >= 0 {
+			head, rest = blk[:i], blk[i+1:]
+		}
+		f := strings.SplitN(head[len("goroutine "):], " ", 2)
+		if len(f) != 2 {
+			continue
+		}
+		id, err := strconv.ParseInt(f[0], 10, 64)
+		if err != nil {
+			continue
+		}
+		st := strings.TrimSuffix(strings.TrimPrefix(f[1], "["), "]:")
+		if i := strings.IndexByte(st, ','); i >= 0 {
+			st = st[:i]
+		}
+		out[id] = gstate{st, rest}
+	}
+	return out
+}
+
+// parkedStatus: the goroutine waits on a channel, a lock or a condition - it
+// will not move unless another goroutine acts.
+func parkedStatus(st string) bool {
+	switch {
+	case strings.HasPrefix(st, "chan "), strings.HasPrefix(st, "select"), strings.HasPrefix(st, "sync."), strings.HasPrefix(st, "semacquire"):
+		return true
+	}
+	return false
+}
+
+// busy: some goroutine other than the harness's own could still act.
+func anyBusy(states map[int64]gstate, self int64) bool {
+	for id, g := range states {
+		if id == self {
+			continue
+		}
+		switch g.status {
+		case "running", "runnable", "sleep":
+			return true
+		case "syscall":
+			if !strings.Contains(g.frames, "os/signal.signal_recv") {
+				return true
+			}
+		}
+	}
+	return false
+}
+
+// monitor notices that the running thread is parked on something the scheduler
+// does not hook, with nothing else in the process able to act, and lets the
+// scheduler go on without it.
+func (s *Sched) monitor(stop chan struct{}) {
+	self := goid()
+	tick := time.NewTicker(500 * time.Microsecond)
+	defer tick.Stop()
+	var last uint64
+	since := time.Now()
+	for {
+		select {
+		case <-stop:
+			return
+		case <-tick.C:
+		}
+		s.mu.Lock()
+		p, cur, active := s.progress, s.cur, s.active
+		s.mu.Unlock()
+		if !active || cur == nil {
+			since = time.Now()
+			continue
+		}
+		if p != last {
+			last, since = p, time.Now()
+			continue
+		}
+		idle := time.Since(since)
+		if idle < 3*time.Millisecond {
+			continue
+		}
+		quiet := func() bool {
+			st := goroutineStates()
+			g, ok := st[cur.goid]
+			if !ok || !parkedStatus(g.status) {
+				return false
+			}
+			// after 3 s without progress a parked running thread is given up on whatever else is going on
+			return idle > 3*time.Second || !anyBusy(st, self)
+		}
+		if !quiet() {
+			continue
+		}
+		time.Sleep(2 * time.Millisecond)
+		if !quiet() {
+			continue
+		}
+		s.externalBlock(cur, p)
+		since = time.Now()
+	}
+}
+
+// externalBlock takes the running role away from cur (parked outside the
+// scheduler) and hands it to another enabled thread.
+func (s *Sched) externalBlock(cur *Thread, p uint64) {
+	s.mu.Lock()
+	if s.progress != p || s.cur != cur || !s.active || cur.done {
+		s.mu.Unlock()
+		return
+	}
+	cur.ext = true
+	cur.blocked = extWait{}
+	s.ExtBlocks++
+	s.Log = append(s.Log, cur.Name+":blocked-outside-scheduler")
+	s.mu.Unlock()
+	s.dispatch(nil, "outside-block:"+cur.Name, true)
+}
+
+// settleExt waits until every externally blocked thread is either parked again
+// or back under the scheduler, so that the enabled set does not depend on timing.
+func (s *Sched) settleExt() {
+	for {
+		s.mu.Lock()
+		var ext []*Thread
+		for _, t := range s.threads {
+			if t.ext && !t.done {
+				ext = append(ext, t)
+			}
+		}
+		s.mu.Unlock()
+		if len(ext) == 0 {
+			return
+		}
+		st := goroutineStates()
+		moving := false
+		for _, t := range ext {
+			if g, ok := st[t.goid]; ok && !parkedStatus(g.status) {
+				moving = true
+			}
+		}
+		if !moving {
+			return
+		}
+		time.Sleep(20 * time.Microsecond)
+	}
+}
+
+// waitExtRejoin: with no enabled thread left, wait until an externally blocked
+// thread comes back (true) or the process is quiet / 3 s have passed (false).
+func (s *Sched) waitExtRejoin() bool {
+	self := goid()
+	deadline := time.Now().Add(3 * time.Second)
+	quietSamples := 0
+	for time.Now().Before(deadline) {
+		s.mu.Lock()
+		back := false
+		for _, t := range s.threads {
+			if !t.done && !t.ext && t.blocked == nil {
+				back = true
+			}
+		}
+		s.mu.Unlock()
+		if back {
+			return true
+		}
+		if anyBusy(goroutineStates(), self) {
+			quietSamples = 0
+		} else if quietSamples++; quietSamples >= 2 {
+			return false
+		}
+		time.Sleep(time.Millisecond)
+	}
+	return false
+}
+
+// rejoin parks an externally blocked thread that has come back to a hooked
+// operation until the scheduler picks it.
+func (t *Thread) rejoin(res any) {
+	s := t.s
+	s.mu.Lock()
+	t.ext = false
+	t.blocked = res
+	s.mu.Unlock()
+	<-t.resume
+	s.mu.Lock()
+	ab := s.aborting
+	s.mu.Unlock()
+	if ab {
+		panic(abortSentinel{})
+	}
+}
+
 // dispatch picks the next thread; leaving=true when the caller will not
 // continue (exit or initial start), otherwise the caller waits for its turn.
 func (s *Sched) dispatch(me *Thread, label string, leaving bool) {
+again:
+	s.settleExt()
 	s.mu.Lock()
+	s.progress++
 	var enabled []*Thread
 	if me != nil && !me.done && me.blocked == nil {
 		enabled = append(enabled, me)
@@ -190,6 +439,21 @@ func (s *Sched) dispatch(me *Thread, label string, leaving bool) {
 			}
 		}
 		if alive {
+			ext := false
+			for _, t := range s.threads {
+				if t.ext && !t.done {
+					ext = true
+				}
+			}
+			if ext {
+				// only threads parked outside the scheduler are left: give whatever
+				// unhooked goroutine might still release them the chance to do so
+				s.mu.Unlock()
+				if s.waitExtRejoin() {
+					goto again
+				}
+				s.mu.Lock()
+			}
 			s.Deadlock = true
 			s.mu.Unlock()
 			s.abortAll(me)
@@ -252,6 +516,16 @@ func (s *Sched) abortAll(me *Thread) {
 			case t.resume <- struct{}{}:
 			default:
 			}
+			s.mu.Lock()
+			abandon := t.ext && !t.reported
+			if abandon {
+				t.reported = true
+			}
+			s.mu.Unlock()
+			if abandon {
+				// parked outside the scheduler: cannot be unwound, Run does not wait for it
+				s.exited <- t
+			}
 		}
 	}
 	if me != nil && !me.done {
@@ -272,6 +546,11 @@ func (t *Thread) Point(label string) {
 		return
 	}
 	s.Log = append(s.Log, t.Name+":"+label)
+	if t.ext {
+		s.mu.Unlock()
+		t.rejoin(nil)
+		return
+	}
 	s.mu.Unlock()
 	s.dispatch(t, label, false)
 }
@@ -287,6 +566,11 @@ func (t *Thread) Block(res any, label string) {
 			panic(abortSentinel{})
 		}
 		runtime.Gosched()
+		return
+	}
+	if t.ext {
+		s.mu.Unlock()
+		t.rejoin(res)
 		return
 	}
 	t.blocked = res
